@@ -37,3 +37,23 @@ pub unsafe extern "C" fn clock_gettime(clk: libc::clockid_t, ts: *mut libc::time
     (*ts).tv_nsec = (ns % 1_000_000_000) as libc::c_long;
     0
 }
+
+/// When set, every socket on which a read timeout is configured is made non-blocking instead: a node's
+/// idle loop iteration then returns at once (many nodes are ticked round-robin by one thread).
+pub static NONBLOCKING_SOCKETS: std::sync::atomic::AtomicBool = std::sync::atomic::AtomicBool::new(false);
+
+#[no_mangle]
+pub unsafe extern "C" fn setsockopt(
+    fd: libc::c_int,
+    level: libc::c_int,
+    name: libc::c_int,
+    val: *const libc::c_void,
+    len: libc::socklen_t,
+) -> libc::c_int {
+    if level == libc::SOL_SOCKET && name == libc::SO_RCVTIMEO && NONBLOCKING_SOCKETS.load(Ordering::SeqCst) {
+        let fl = libc::fcntl(fd, libc::F_GETFL);
+        libc::fcntl(fd, libc::F_SETFL, fl | libc::O_NONBLOCK);
+        return 0;
+    }
+    libc::syscall(libc::SYS_setsockopt, fd, level, name, val, len) as libc::c_int
+}
